@@ -33,9 +33,11 @@ def scenarios(rng, tier):
       'qlt_name': [qlt(M, own, 17, 0, seq=8)], 'qlt_hwid': [qlt(M, own, 19, 0, seq=8)], 'qlt_unknown': [qlt(M, own, 99, 0, seq=8), qlt(M, own, 14, 0, seq=0)],
       'hello_noise': [hello(mac(9)), generic(9, 0, M, M, own, own), generic(200, 2, M, M, own, own)],
       'reset_cycle': [discover(M, gen=3), probe(mac(75), own, mac(75), own), qlt(M, own, 14, 0, seq=8), reset(M)],
+      'reset_quick_then_topo': [discover(M, gen=3), qlt(M, own, 14, 0, seq=8), reset(M, tos=1), reset(M, tos=0)],
+      'reset_drained_quick_topo': [discover(M, gen=3), probe(mac(76), own, mac(76), own), qlt(M, own, 14, 0, seq=8), query(M, own, seq=9), reset(mac(2), tos=1), reset(M, tos=0)],
     }
-    for bn, fr in blocks.items():
-        s.start('rep_' + bn); s.lines.append(gline(host=b'h', icon=icon, fname=b'a friendly name', hwid=b'hw'))
+    for bn, fr in list(blocks.items()) + [('qlt_icon_empty', blocks['qlt_icon0']), ('qlt_icon_empty_walk', blocks['qlt_icon_walk'] + [reset(M)])]:
+        s.start('rep_' + bn); s.lines.append(gline(host=b'h', icon=b'' if 'empty' in bn else icon, fname=b'a friendly name', hwid=b'hw'))
         for r_ in range(60 if tier == 'quick' else 400):
             for f in fr: s.frame(0, f)
     N = 3000 if tier == 'quick' else 100000
@@ -45,10 +47,10 @@ def scenarios(rng, tier):
     for i in range(N): s.frame(0, probe(mac(1000 + i), own, mac(1000 + i) if i % 3 else mac(500000 + i), own, train=i % 2 == 0))
     s.frame(0, query(M, own, seq=2)); s.frame(0, reset(M))
     # rounds of (3 frames' worth of distinct probes, one Query): the backlog grows by two frames' worth per round until the cap holds it
-    for mtu in ((576,) if tier == 'quick' else (576, 1500)):
+    for mtu in ((594,) if tier == 'quick' else (576, 594, 1500, 1514)):      # 594, 1514: the last descriptor fits exactly
         per = (mtu - 34) // 20
         s.start('floodr_%d' % mtu); s.lines.append('cfg 0 mtu=%d' % mtu); s.frame(0, discover(M, gen=1))
-        rounds = ((cap or 1024) + 6 * per) // (2 * per) + 3; x = 0
+        rounds = ((cap or 1024) + 6 * per) // (2 * per) + 14; x = 0           # a dozen more rounds once the cap holds
         for r_ in range(rounds):
             for i in range(3 * per): s.frame(0, probe(mac(5000 + x), own, mac(5000 + x), own)); x += 1
             s.frame(0, query(M, own, seq=1 + r_))
